@@ -25,16 +25,10 @@ Proof.
   - intros co1 H1. rewrite E2 in H1. erewrite nth_error_upd_eq in H1 by eauto. inversion H1. subst. auto.
 Qed.
 
-Lemma swap_exec_spec c o s co ob :
+Lemma swap_exec_eq sw c o s co ob :
   nth_error (cos s) c = Some co -> nth_error (objs s) o = Some ob ->
-  objs (swap_exec c o s) = upd (objs s) o (set_oexec (cexec co) ob) /\
-  cos (swap_exec c o s) = upd (cos s) c (set_cexec (oexec ob) co) /\
-  qs (swap_exec c o s) = qs s /\ stk (swap_exec c o s) = stk s.
-Proof. intros H1 H2. unfold swap_exec. rewrite H1, H2. simpl. repeat split; auto. Qed.
-
-Lemma swap_exec_eq c o s co ob :
-  nth_error (cos s) c = Some co -> nth_error (objs s) o = Some ob ->
-  swap_exec c o s = set_ob o (set_oexec (cexec co) ob) (set_co c (set_cexec (oexec ob) co) s).
+  swap_exec sw c o s =
+  set_ob o (set_oexec (if sw then cexec co else oexec ob) ob) (set_co c (set_cexec (oexec ob) co) s).
 Proof. intros H1 H2. unfold swap_exec. rewrite H1, H2. reflexivity. Qed.
 
 Lemma out_upd_occ os o ob0 a b c :
@@ -78,10 +72,10 @@ Proof.
 Qed.
 
 (* a completion reaches a counted awaiter (several futures, or AwaitOn of one): SubEqual(1) *)
-Lemma fire_counted_inv s t c v co a s1 o :
+Lemma fire_counted_inv sw s t c v co a s1 o :
   Inv s -> nth_error (cos s) c = Some co -> capt co = Some a -> acounted a = true ->
   fire_top s t = Some (o, c, s1) -> 1 <= cnt co -> v = cnt co - 1 ->
-  Inv (let s2 := set_co c (set_cnt v co) s1 in if Nat.eqb (cnt co) 1 then counted_last t o c a s2 else s2).
+  Inv (let s2 := set_co c (set_cnt v co) s1 in if Nat.eqb (cnt co) 1 then counted_last sw t o c a s2 else s2).
 Proof.
   intros I Hc Ha Hac Hf Hle ->. apply fire_top_spec2 in Hf.
   destruct Hf as (ob & rest & stk1 & Hin & Ho & Hp & -> & E4).
@@ -112,12 +106,13 @@ Proof.
     all: try (unfold B_ok, C_ok in *; (eapply reg_done_complete; [|exact C]); simpl in *; lia).
     + (* resumed inline by the completer *)
       unfold resume_inline. simpl. rewrite Hlk.
-      match goal with |- Inv (swap_exec c o ?s3) =>
+      match goal with |- Inv (swap_exec sw c o ?s3) =>
         assert (L1 : nth_error (cos s3) c = Some (set_cst (AResume (ByFire o)) (set_on t (set_cnt (cnt co - 1) co))))
           by (simpl; eapply nth_error_upd_eq; eauto);
         assert (L2 : nth_error (objs s3) o = Some (set_opend rest ob)) by (simpl; eapply nth_error_upd_eq; eauto);
-        rewrite (swap_exec_eq c o s3 _ _ L1 L2); clear L1 L2
+        rewrite (swap_exec_eq _ c o s3 _ _ L1 L2); clear L1 L2
       end.
+      match goal with |- context [set_oexec ?x _] => generalize x; intros xe end.
       eapply (inv_move s _ c co _ o ob _ I Hc Ho).
       * simpl. rewrite upd_upd. reflexivity.
       * simpl. rewrite !upd_upd. reflexivity.
@@ -126,7 +121,7 @@ Proof.
       * eapply obj_ext_trans. exact Hxo. apply obj_ext_exec.
       * apply obj_ok_exec. exact Hoo.
       * intros Xe. co_mv K Xe Ha Hs.
-        all: assert (Hk2 : out (upd (objs s) o (set_oexec (cexec co) (set_opend rest ob))) c = 0)
+        all: assert (Hk2 : out (upd (objs s) o (set_oexec xe (set_opend rest ob))) c = 0)
           by (rewrite (out_upd_occ _ _ _ _ (set_opend rest ob) c Ho) by reflexivity; parts; simpl in *; lia).
         -- parts. simpl. split; auto.
         -- parts. eapply reg_done_complete; [|exact C]; auto.
@@ -136,7 +131,7 @@ Proof.
            eapply nth_error_upd_eq; eauto. simpl. auto.
         -- eapply H_ok_upd; eauto; reflexivity.
         -- eapply R_ok_upd; eauto. left. pose proof (occ_pop c c ob rest Hp) as Xp. rewrite Nat.eqb_refl in Xp.
-           change (occ c (set_oexec (cexec co) (set_opend rest ob))) with (occ c (set_opend rest ob)). lia.
+           change (occ c (set_oexec xe (set_opend rest ob))) with (occ c (set_opend rest ob)). lia.
   - (* not the last one *)
     assert (Hk3 : 1 <= out (objs s) c) by lia.
     eapply (inv_move s _ c co _ o ob (set_opend rest ob) I Hc Ho);
@@ -150,7 +145,7 @@ Proof.
     all: try (eapply R_ok_upd; eauto; left; pose proof (occ_pop c c ob rest Hp) as Xp; rewrite Nat.eqb_refl in Xp; lia).
 Qed.
 
-Lemma step_csub_inv s t c v s' : Inv s -> step_csub s t c v = Some s' -> Inv s'.
+Lemma step_csub_inv sw s t c v s' : Inv s -> step_csub sw s t c v = Some s' -> Inv s'.
 Proof.
   intros I H. unfold step_csub in H. destruct (nth_error (cos s) c) as [co|] eqn:Hc; try discriminate.
   destruct (capt co) as [a|] eqn:Ha; try discriminate.
@@ -161,7 +156,7 @@ Proof.
       | Some (o, c', s1) =>
           if Nat.eqb c' c && Nat.leb 1 (cnt co) && Nat.eqb v (cnt co - 1)
           then let s2 := set_co c (set_cnt v co) s1 in
-               Some (if Nat.eqb (cnt co) 1 then counted_last t o c a s2 else s2)
+               Some (if Nat.eqb (cnt co) 1 then counted_last sw t o c a s2 else s2)
           else None
       | None => None
       end) = Some s' -> Inv s').
@@ -169,7 +164,7 @@ Proof.
     destruct (fire_top s t) as [[[o c'] s1]|] eqn:Hf; try discriminate.
     match type of H with (if ?b then _ else _) = _ => destruct b eqn:G; try discriminate end.
     nat_eqs. subst c'. inversion H; subst s'; clear H.
-    eapply (fire_counted_inv s t c v co a s1 o); eauto. }
+    eapply (fire_counted_inv sw s t c v co a s1 o); eauto. }
   destruct (cst co) eqn:Hs; try (apply Hfire; exact H); destruct (Nat.eqb (on co) t) eqn:Hon; try (apply Hfire; exact H); clear Hfire.
   - (* the constructor's fetch_sub *)
     match type of H with (if ?b then _ else _) = _ => destruct b eqn:G; try discriminate end.
@@ -182,20 +177,21 @@ Proof.
     parts; simpl in *; (eapply reg_done_complete; [|exact C]); lia.
 Qed.
 
-Definition after_plain (o c : nat) (s2 : st) : st :=
+Definition after_plain (sw : bool) (o c : nat) (s2 : st) : st :=
   match nth_error (cos s2) c with
-  | Some co2 => match cst co2 with AResume (ByFire _) => swap_exec c o s2 | _ => s2 end
+  | Some co2 => match cst co2 with AResume (ByFire _) => swap_exec sw c o s2 | _ => s2 end
   | None => s2
   end.
 
 Ltac plain_inline s c o t co ob rest I Hc Ho Hxo Hoo K Ha Hs :=
-  match goal with |- Inv (swap_exec c o ?s3) /\ _ =>
+  match goal with |- Inv (swap_exec _ c o ?s3) /\ _ =>
         let L1 := fresh "L1" in let L2 := fresh "L2" in
         assert (L1 : nth_error (cos s3) c = Some (set_cst (AResume (ByFire o)) (set_on t co)))
           by (simpl; eapply nth_error_upd_eq; eauto);
         assert (L2 : nth_error (objs s3) o = Some (set_opend rest ob)) by (simpl; eapply nth_error_upd_eq; eauto);
-        rewrite (swap_exec_eq c o s3 _ _ L1 L2); clear L1 L2
+        rewrite (swap_exec_eq _ c o s3 _ _ L1 L2); clear L1 L2
       end;
+  match goal with |- context [set_oexec ?x _] => generalize x; intros xe end;
   (split; [| do 2 eexists; split; [reflexivity|]; simpl; rewrite upd_upd; erewrite nth_error_upd_eq by eauto;
                  split; [reflexivity|]; simpl; auto]);
   eapply (inv_move s _ c co _ o ob _ I Hc Ho);
@@ -204,9 +200,9 @@ Ltac plain_inline s c o t co ob rest I Hc Ho Hxo Hoo K Ha Hs :=
       | eapply obj_ext_trans; [exact Hxo | apply obj_ext_exec] | apply obj_ok_exec; exact Hoo | ];
   let Xe := fresh "Xe" in intros Xe; co_mv K Xe Ha Hs.
 
-Ltac inline_fin s c o t co ob rest Ho Hk1 Hocc Hthr C R :=
+Ltac inline_fin s c o t co ob rest xe Ho Hk1 Hocc Hthr C R :=
   let Hk2 := fresh "Hk2" in
-  assert (Hk2 : out (upd (objs s) o (set_oexec (cexec co) (set_opend rest ob))) c = 0)
+  assert (Hk2 : out (upd (objs s) o (set_oexec xe (set_opend rest ob))) c = 0)
     by (rewrite (out_upd_occ _ _ _ _ (set_opend rest ob) c Ho) by reflexivity; parts; simpl in *; lia);
   match goal with
   | |- B_ok _ _ _ _ => parts; simpl; split; auto
@@ -217,14 +213,14 @@ Ltac inline_fin s c o t co ob rest Ho Hk1 Hocc Hthr C R :=
         split; [exact Hin'|]; split; [reflexivity|]; split; [eapply nth_error_upd_eq; eauto | simpl; auto]
   | |- H_ok _ _ _ _ _ _ _ _ _ => eapply H_ok_upd; eauto; reflexivity
   | |- R_ok _ _ _ => eapply R_ok_upd; eauto; left;
-        change (occ c (set_oexec (cexec co) (set_opend rest ob))) with (occ c (set_opend rest ob)); lia
+        change (occ c (set_oexec xe (set_opend rest ob))) with (occ c (set_opend rest ob)); lia
   end.
 
 (* a completion reaches an awaiter without counter: co_await future / task, Await(f), AwaitSticky(f) *)
-Lemma fire_plain_inv s t o c s1 s2 :
+Lemma fire_plain_inv sw s t o c s1 s2 :
   Inv s -> fire_top s t = Some (o, c, s1) -> plain_fire t o c s1 = Some s2 ->
-  Inv (after_plain o c s2) /\
-  exists co2 co3, nth_error (cos s2) c = Some co2 /\ nth_error (cos (after_plain o c s2)) c = Some co3 /\
+  Inv (after_plain sw o c s2) /\
+  exists co2 co3, nth_error (cos s2) c = Some co2 /\ nth_error (cos (after_plain sw o c s2)) c = Some co3 /\
                   on co3 = t /\ cst co3 = cst co2 /\
                   (cst co2 = AResume (ByFire o) \/ cst co2 = AResume (ByExec 0) \/ exists x, cst co2 = ASubmit x).
 Proof.
@@ -271,10 +267,10 @@ Proof.
         all: try (unfold B_ok, C_ok in *; (eapply reg_done_complete; [|exact C]); simpl in *; lia).
       + do 2 eexists. split; [reflexivity|]. simpl. erewrite nth_error_upd_eq by eauto. split; [reflexivity|].
         simpl. split; auto. split; auto. right. right. eauto. }
-  - plain_inline s c o t co ob rest I Hc Ho Hxo Hoo K Ha Hs; inline_fin s c o t co ob rest Ho Hk1 Hocc Hthr C R.
-  - plain_inline s c o t co ob rest I Hc Ho Hxo Hoo K Ha Hs; inline_fin s c o t co ob rest Ho Hk1 Hocc Hthr C R.
-  - plain_inline s c o t co ob rest I Hc Ho Hxo Hoo K Ha Hs; inline_fin s c o t co ob rest Ho Hk1 Hocc Hthr C R.
-  - plain_inline s c o t co ob rest I Hc Ho Hxo Hoo K Ha Hs; inline_fin s c o t co ob rest Ho Hk1 Hocc Hthr C R.
+  - plain_inline s c o t co ob rest I Hc Ho Hxo Hoo K Ha Hs; inline_fin s c o t co ob rest xe Ho Hk1 Hocc Hthr C R.
+  - plain_inline s c o t co ob rest I Hc Ho Hxo Hoo K Ha Hs; inline_fin s c o t co ob rest xe Ho Hk1 Hocc Hthr C R.
+  - plain_inline s c o t co ob rest I Hc Ho Hxo Hoo K Ha Hs; inline_fin s c o t co ob rest xe Ho Hk1 Hocc Hthr C R.
+  - plain_inline s c o t co ob rest I Hc Ho Hxo Hoo K Ha Hs; inline_fin s c o t co ob rest xe Ho Hk1 Hocc Hthr C R.
 Qed.
 
 Lemma out_zero_occ os c o ob : out os c = 0 -> nth_error os o = Some ob -> occ c ob = 0.
@@ -367,7 +363,7 @@ Proof.
   - inversion H; subst s'. apply Hnormal. unfold the_rec. rewrite Hco. reflexivity.
 Qed.
 
-Lemma step_res_inv s t c s' : Inv s -> step_res s t c = Some s' -> Inv s'.
+Lemma step_res_inv sw s t c s' : Inv s -> step_res sw s t c = Some s' -> Inv s'.
 Proof.
   intros I H. unfold step_res in H. destruct (nth_error (cos s) c) as [co|] eqn:Hc; try discriminate.
   destruct (cst co) eqn:Hs; try discriminate.
@@ -375,7 +371,7 @@ Proof.
     destruct (fire_top s t) as [[[o c'] s1]|] eqn:Hf; try discriminate.
     destruct (negb (Nat.eqb c' c)) eqn:Hcc; try discriminate. nat_eqs. subst c'.
     destruct (plain_fire t o c s1) as [s2|] eqn:Hp; try discriminate.
-    destruct (fire_plain_inv _ _ _ _ _ _ I Hf Hp) as (I2 & co2 & co3 & L2 & L3 & Hon3 & Hs3 & Hcase).
+    destruct (fire_plain_inv sw _ _ _ _ _ _ I Hf Hp) as (I2 & co2 & co3 & L2 & L3 & Hon3 & Hs3 & Hcase).
     unfold after_plain in *. rewrite L2 in I2, L3, H.
     destruct Hcase as [Hcs|[Hcs|[x Hcs]]]; rewrite Hcs in I2, L3, H, Hs3; try discriminate.
     + eapply finish_await_inv; eauto.
@@ -421,7 +417,7 @@ Proof.
   - destruct (fire_top s t) as [[[o c'] s1]|] eqn:Hf; try discriminate.
     destruct (negb (Nat.eqb c' c)) eqn:Hcc; try discriminate. nat_eqs. subst c'.
     destruct (plain_fire t o c s1) as [s2|] eqn:Hp; try discriminate.
-    destruct (fire_plain_inv _ _ _ _ _ _ I Hf Hp) as (I2 & co2 & co3 & L2 & L3 & Hon3 & Hs3 & Hcase).
+    destruct (fire_plain_inv false _ _ _ _ _ _ I Hf Hp) as (I2 & co2 & co3 & L2 & L3 & Hon3 & Hs3 & Hcase).
     unfold after_plain in *. rewrite L2 in I2, L3, H.
     destruct Hcase as [Hcs|[Hcs|[x1 Hcs]]]; rewrite Hcs in I2, L3, H; try discriminate.
     destruct (Nat.eqb x1 x) eqn:Hx; try discriminate. nat_eqs. subst x1.
@@ -459,7 +455,7 @@ Qed.
 Lemma q_ext_dequeue c q : q_ext c q (remove1 c q).
 Proof. intros c1 N. apply cocc_remove1_other. auto. Qed.
 
-Lemma ev_call_inv s t x c s' : Inv s -> step_g true s (ECall t x c) = Some s' -> Inv s'.
+Lemma ev_call_inv sw s t x c s' : Inv s -> step_g true sw s (ECall t x c) = Some s' -> Inv s'.
 Proof.
   intros I H. simpl in H. destruct (dequeue x c s) as [s1|] eqn:Hd; try discriminate.
   apply dequeue_spec in Hd. destruct Hd as (q & Hq & Hi & ->). simpl in H.
@@ -477,7 +473,7 @@ Proof.
 Qed.
 
 
-Lemma ev_drop_inv s t x c s' : Inv s -> step_g true s (EDrop t x c) = Some s' -> Inv s'.
+Lemma ev_drop_inv sw s t x c s' : Inv s -> step_g true sw s (EDrop t x c) = Some s' -> Inv s'.
 Proof.
   intros I H. simpl in H. destruct (dequeue x c s) as [s1|] eqn:Hd; try discriminate.
   apply dequeue_spec in Hd. destruct Hd as (q & Hq & Hi & ->). simpl in H.
@@ -506,7 +502,7 @@ Qed.
 Lemma ready_rule : c13_ready_is_result = true.
 Proof. reflexivity. Qed.
 
-Lemma step_g_inv s e s' : Inv s -> step_g true s e = Some s' -> Inv s'.
+Lemma step_g_inv sw s e s' : Inv s -> step_g true sw s e = Some s' -> Inv s'.
 Proof.
   intros I H. destruct e.
   - eapply step_ld_inv; eauto.
@@ -554,15 +550,19 @@ Proof.
     + intros o ob Hn Ho. apply init_occ with (c := c) in Hn. lia.
 Qed.
 
-Lemma inv_reach_g os cs nx tr s : run_g true (init os cs nx) tr = Some s -> Inv s.
+Lemma inv_reach_g sw os cs nx tr s : run_g true sw (init os cs nx) tr = Some s -> Inv s.
 Proof.
-  assert (G : forall tr s0 s, Inv s0 -> run_g true s0 tr = Some s -> Inv s).
+  assert (G : forall tr s0 s, Inv s0 -> run_g true sw s0 tr = Some s -> Inv s).
   { induction tr0 as [|e tr0 IH]; simpl; intros s0 s1 I H. inversion H; subst; auto.
-    destruct (step_g true s0 e) eqn:E; try discriminate. eapply (IH s2 s1); auto. eapply step_g_inv; eauto. }
+    destruct (step_g true sw s0 e) eqn:E; try discriminate. eapply (IH s2 s1); auto. eapply step_g_inv; eauto. }
   intros H. eapply G; eauto. apply init_inv.
 Qed.
 
 Lemma inv_reach os cs nx tr s : run (init os cs nx) tr = Some s -> Inv s.
 Proof. unfold run. rewrite ready_rule. apply inv_reach_g. Qed.
+
+(* ... whichever way PromiseType::Impl hands the executor over *)
+Lemma inv_reach_any sw os cs nx tr s : run_g c13_ready_is_result sw (init os cs nx) tr = Some s -> Inv s.
+Proof. rewrite ready_rule. apply inv_reach_g. Qed.
 
 
